@@ -94,10 +94,11 @@ def summarize(beh):
 
 
 def write_replay(prop, beh, mm):
-    os.makedirs(os.path.join(VERIF, "replays"), exist_ok=True)
+    rdir = os.environ.get("VERIF_REPLAY_DIR") or os.path.join(VERIF, "replays")
+    os.makedirs(rdir, exist_ok=True)
     body = {"property": prop, "mismatch": mm, "behaviour": beh_to_json(beh)}
     h = hashlib.sha1(json.dumps(body, sort_keys=True, default=str).encode()).hexdigest()[:12]
-    path = os.path.join(VERIF, "replays", f"{prop}-{h}.json")
+    path = os.path.join(rdir, f"{prop}-{h}.json")
     with open(path, "w") as f:
         json.dump(body, f, indent=1, default=str)
     return path
@@ -130,12 +131,22 @@ def explore(inst, seed, tier):
     if inst.get("simulate"):
         sim = dict(inst["simulate"])
         sim["seed"] = seed + 1
+    consts = dict(inst.get("consts") or {})
+    if inst.get("sample_mod"):      # TLC checks every behaviour; the exporter prints the residue class chosen by the seed
+        consts["SampleMod"] = inst["sample_mod"]
+        consts["SampleRes"] = seed % inst["sample_mod"]
     err = None
     for nprimes in (inst.get("nprimes", 8), 14, 20):
         try:
-            return tlcrun.run_model(inst["module"], cfg_text, nprimes=nprimes,
-                                    timeout=inst.get("timeout", 1200 if tier == "quick" else 7200), simulate=sim,
-                                    extra_consts=inst.get("consts"))
+            behs, stats = tlcrun.run_model(inst["module"], cfg_text, nprimes=nprimes,
+                                           timeout=inst.get("timeout", 1200 if tier == "quick" else 7200), simulate=sim,
+                                           extra_consts=consts)
+            # vacuity guard: every action the instance is meant to exercise must occur in the exported behaviours
+            seen = {st["act"] for b in behs for st in b}
+            missing = [a for a in inst.get("require_acts", []) if a not in seen]
+            if missing:
+                raise tlcrun.TlcError(f"vacuous instance {inst['cfg']}: actions never taken: {missing}")
+            return behs, stats
         except decode.DecodeError as e:   # magnitudes need more primes: rerun the same model with more
             err = e
             continue
@@ -159,28 +170,10 @@ def run_check(prop, tier, seed):
     acts = {}
     rp = replay.Replayer()
     for inst in insts:
-        with open(os.path.join(tlcrun.SPEC_DIR, inst["cfg"])) as f:
-            cfg_text = f.read()
-        sim = None
-        if inst.get("simulate"):
-            sim = dict(inst["simulate"])
-            sim["seed"] = seed + 1
-        behs = None
-        err = None
-        for nprimes in (inst.get("nprimes", 8), 14, 20):
-            try:
-                behs, stats = tlcrun.run_model(inst["module"], cfg_text, nprimes=nprimes,
-                                               timeout=inst.get("timeout", 1200 if tier == "quick" else 7200), simulate=sim,
-                                               extra_consts=inst.get("consts"))
-                break
-            except decode.DecodeError as e:   # magnitudes need more primes: rerun the same model with more
-                err = e
-                continue
-            except tlcrun.TlcError as e:
-                err = e
-                break
-        if behs is None:
-            print(f"MACHINERY-ERROR property={prop} {inst['module']}/{inst['cfg']}: {err}")
+        try:
+            behs, stats = explore(inst, seed, tier)
+        except (tlcrun.TlcError, decode.DecodeError) as e:
+            print(f"MACHINERY-ERROR property={prop} {inst['module']}/{inst['cfg']}: {e}")
             return 2
         all_stats.append(stats)
         if not behs:
@@ -255,8 +248,9 @@ def finalize(prop, tier, seed, t0, spec, insts, all_stats, mismatches, n_replaye
         "wall_s": round(wall, 2),
         "violations": violations,
     }
-    os.makedirs(os.path.join(VERIF, "evidence"), exist_ok=True)
-    with open(os.path.join(VERIF, "evidence", f"{prop}.json"), "w") as f:
+    evdir = os.environ.get("VERIF_EVIDENCE_DIR") or os.path.join(VERIF, "evidence")
+    os.makedirs(evdir, exist_ok=True)
+    with open(os.path.join(evdir, f"{prop}.json"), "w") as f:
         json.dump(ev, f, indent=1)
     print(f"{prop} {tier}: {n_replayed} behaviours replayed ({calls} calls), "
           f"{cov['states']} TLC states, {violations} violations, "
